@@ -29,7 +29,16 @@ class C18(Check):
             "algorithm used alternately and exchanged): Verify judged by what the KEY holds at the call. Window with "
             "inception/expiration at now-1, now, now+1 for every key and all pairs over 0, 1, 2^31-1, 2^31, 2^32-1, now+-1: "
             "clock read around the call, judged when both readings agree, repeated until the call ran in the second the "
-            "window was built from. Model cases: sign (key-field errors, unknown algorithm, compression on/off) and verify (valid, "
+            "window was built from. Names as octet strings: signer names holding every octet value; against each a KEY owner "
+            "with every one of the 256 values at every position (canonical, raw, \\DDD), every character the Unicode case "
+            "tables relate to an ASCII letter (U+212A, U+017F, U+0130, U+0131, fullwidth) as raw UTF-8 and escaped, ASCII case "
+            "flips, XOR 0x20 on every octet, labels added / dropped / split / merged; oracle from the wire forms: any difference "
+            "other than ASCII letter case must fail, ASCII case only must verify. Verify only reads its inputs: buffer (with "
+            "capacity behind its length), SIG and KEY compared before / after every Verify call of the harness; an observing hash "
+            "put into the crypto registry (and AlgorithmToHash for Ed25519) checks them at every Write / Sum during the call and "
+            "runs a second Verify of the same octets there; six goroutines per buffer verify 14 shared buffers at once behind a "
+            "start barrier (matching key, other material, other owner), a reader compares the octets all along. Signature field "
+            "length: appended / prepended / cut / r and s padded or stripped, RDLENGTH adjusted, every key: must fail. Model cases: sign (key-field errors, unknown algorithm, compression on/off) and verify (valid, "
             "bit flips steering the counts and offsets, truncations, malformed buffers, mismatched caller SIG); messages above 3000 octets as run-length recipes both sides expand (signbig/verifybig, "
             "long octet strings compared by length.sum.sum-of-prefix-sums); the last result of each goroutine. Non-trivial: "
             "input longer than a header; distinct by hash of (function, arguments, output).")
@@ -38,6 +47,8 @@ class C18(Check):
                "the uncompressed length and m.Pack() are inputs of the sign model; |Pack| <= uncompressed length + 1 is property C08",
                "the clock cannot be injected into SIG.Verify: window cases are judged only when the clock did not tick during "
                "the call",
+               "a KEY owner that spells the signer's own name another way (raw octets above 127, a letter as \\DDD) is not judged: "
+               "Verify compares presentation strings and rejects it (counted in same_name_other_presentation_rejected)",
                "messages above 3000 octets reach the model only when their octets have a run-length recipe of at most 16000 "
                "characters (the generated size-limit messages do; random large ones are checked by the direct oracles only), and "
                "the verify model is run on them only up to 40 records (it costs ~5 ms per record in a 64 KiB message)",
